@@ -358,11 +358,11 @@ func (vc *VC) dispatchCall2(st *State, call *ast.CallExpr, recv *Term, args []Te
 	}
 	// auto-inline: proto getters
 	if fi := vc.prog.Funcs[key]; fi != nil {
-		if strings.HasSuffix(pkgPath, "/command/proto") && strings.HasPrefix(fn.Name(), "Get") {
+		if isRqlitePkg(pkgPath) && strings.HasSuffix(pkgPath, "/proto") && strings.HasPrefix(fn.Name(), "Get") {
 			return vc.inlineFunc(st, fi, recv, args)
 		}
 	}
-	if strings.HasSuffix(pkgPath, "/command/proto") && strings.HasPrefix(fn.Name(), "Get") && recv != nil {
+	if isRqlitePkg(pkgPath) && strings.HasSuffix(pkgPath, "/proto") && strings.HasPrefix(fn.Name(), "Get") && recv != nil {
 		// getter without loaded body: nil-safe field read
 		if rs, ok := vc.protoGetter(st, call, fn, *recv); ok {
 			return rs
@@ -843,7 +843,7 @@ func (vc *VC) bindAnchors(fi *FuncInfo, c *FuncContract) {
 		return true
 	})
 	for i, gu := range all {
-		if gu.Anchor != "exit" && !matched[i] {
+		if gu.Anchor != "exit" && !matched[i] && !strings.HasSuffix(gu.Anchor, "*") && !gu.Optional {
 			vc.fail("anchor @%s of %s matches no call in %s", gu.Anchor, gu.Var, fi.Key)
 		}
 	}
